@@ -23,11 +23,16 @@ L(e) == [k \in DOMAIN e.loaded.ents |-> [c |-> e.loaded.ents[k].c, r |-> e.loade
 
 If(c, name) == IF c THEN {name} ELSE {}
 
+\* a row-id array with more elements than its length word can count has no file: the writer must refuse (raise)
+\* (the second conjunct of Indx!RwsOK, the pre-condition of Encode)
+TooLong(e) == \E k \in DOMAIN e.x.ents : ~FitsBytes(FromNat(Len(e.x.ents[k].r)), e.rws)
+
 WriterClauses(e) ==
   LET x == X(e)  b == e.bytes  n == Len(x.ents)
       abOK(ab) == IF n = 0 THEN ab \in {0, x.arity} ELSE ab = x.arity
       want(ab) == Encode(x, ab, SaverIws(x), e.rws)
-  IN IF e.saveexc THEN {"C10:save-raised"}
+  IN IF e.saveexc THEN (IF TooLong(e) THEN {} ELSE {"C10:save-raised"})
+     ELSE IF TooLong(e) THEN {"C11:row-count-does-not-fit-its-length-word"}
      ELSE IF Len(b) < 23 \/ SubSeq(b, 1, 8) # Magic THEN {"C11:magic-or-header"}
      ELSE If(Word(b, 8, 8) # FromNat(Len(b) - 16), "C11:size-field")
           \cup If(b[22] # SaverIws(x), "C11:index-word-size-not-narrowest")
